@@ -370,6 +370,12 @@ func (ex *Exec) evalIdent(st *State, name string, e *env) Val {
 	switch name {
 	case "out":
 		return Val{K: KTerm, T: "out", Meta: ghostSeq{"out"}}
+	case "cb":
+		return Val{K: KTerm, T: "cb", Meta: ghostSeq{"cb"}}
+	case "lastreader":
+		return Val{K: KTerm, T: st.region("G!rdlast", "Int")}
+	case "rdcount":
+		return term(st.region("G!rdcount", "Int"), tInt)
 	case "visited":
 		if len(st.iters) == 0 {
 			specFail("no active map iteration for `visited`")
@@ -891,6 +897,22 @@ func (ex *Exec) evalCall(st *State, n *node, e *env) Val {
 			specFail("unbox(x, \"sort\", \"path\")")
 		}
 		return Val{K: KTerm, T: sel(st.region("I!"+args[2].name, arr("Int", args[1].name)), arg(0).T), Typ: sortType(args[1].name)}
+	case "atlock":
+		// atlock(m): the contents of guarded map m at the most recent acquisition of its lock
+		m := arg(0)
+		mt, ok := m.Typ.Underlying().(*types.Map)
+		if !ok {
+			specFail("atlock() on non-map")
+		}
+		_, ds := mapRegions(mt)
+		lfs := leaves(mt.Elem())
+		if len(lfs) != 1 {
+			specFail("atlock() on a map with composite values")
+		}
+		_, vs := mapValRegion(mt, lfs[0])
+		r := Val{K: KTerm, T: m.T, Typ: nil}
+		r.Meta = mapSnap{dom: sel(st.region("G!snap!"+typeName(mt)+"!dom", ds), m.T), val: sel(st.region("G!snap!"+typeName(mt)+"!val", vs), m.T), elem: mt.Elem()}
+		return r
 	case "cast":
 		// cast(x, "*pkg.T"): view an interface value holding a pointer as that pointer
 		if len(args) != 2 || args[1].op != "lit-str" {
@@ -910,6 +932,26 @@ func (ex *Exec) evalCall(st *State, n *node, e *env) Val {
 	case "mapof":
 		// snapshot accessor for ghost map snapshots: mapof(out[i].Subjects)
 		return arg(0)
+	case "recvd":
+		ch, i := arg(0), arg(1)
+		et := chanElem(ch.Typ)
+		if et == nil || scalarSort(et) == "" {
+			specFail("recvd(): channel of scalar elements expected")
+		}
+		s := scalarSort(et)
+		return term(sel(sel(st.region("G!recvd!"+s, arr("Int", arr("Int", s))), ch.T), i.T), et)
+	case "chancap":
+		return term(sel(st.region("G!chancap", arr("Int", "Int")), arg(0).T), tInt)
+	case "pending":
+		return term("(- "+sel(st.region("G!sentlen", arr("Int", "Int")), arg(0).T)+" "+sel(st.region("G!recvlen", arr("Int", "Int")), arg(0).T)+")", tInt)
+	case "tickperiod":
+		return term(sel(st.region("G!tickperiod", arr("Int", "Int")), arg(0).T), tInt)
+	case "rdrec":
+		return term(sel(st.region("G!rdrec", arr("Int", "Int")), arg(0).T), tInt)
+	case "rdstream":
+		return term(sel(sel(st.region("G!rdstream", arr("Int", arr("Int", "String"))), arg(0).T), arg(1).T), tString)
+	case "rdlasterr":
+		return term(sel(st.region("G!rdlasterr", arr("Int", "Int")), arg(0).T), types.Universe.Lookup("error").Type())
 	case "sentlen":
 		return term(sel(st.region("G!sentlen", arr("Int", "Int")), arg(0).T), tInt)
 	case "recvlen":
